@@ -729,8 +729,11 @@ func (d *DFA) searchEarliestMatch(cache *DFACache, haystack []byte, startPos int
 		if exitBytes := currentState.AccelExitBytes(); len(exitBytes) > 0 {
 			nextPos := d.accelerate(haystack, pos, exitBytes)
 			if nextPos == -1 {
-				// No exit byte found - can't match
-				return false
+				// No exit byte: the rest of the input loops in this state. The search
+				// is not over - the state may still match at the end of the input
+				// (`x|$`), which the end-of-input check below decides.
+				pos = len(haystack)
+				break
 			}
 			// Skip to the exit byte position
 			pos = nextPos
@@ -1253,7 +1256,10 @@ func (d *DFA) searchAt(cache *DFACache, haystack []byte, startPos int) int { //n
 		if exitBytes := currentState.AccelExitBytes(); len(exitBytes) > 0 {
 			nextPos := d.accelerate(haystack, pos, exitBytes)
 			if nextPos == -1 {
-				return lastMatch
+				// No exit byte: the rest of the input loops in this state; go on to
+				// the end-of-input check (`x|$` matches at the end).
+				pos = len(haystack)
+				break
 			}
 			pos = nextPos
 		}
